@@ -23,7 +23,7 @@ def main(argv):
     if tier == 'quick':
         seqs = tv.family(3, 24, seed, sample2=80)
     else:
-        seqs = tv.family(4, 400, seed)
+        seqs = tv.family(4, 120, seed)
     decls = []
     for ci, seq in enumerate(seqs):
         for oi, opts in enumerate(tv.option_sets(tier != 'quick', seed, ci)):
